@@ -7,6 +7,7 @@
 
 mod areas;
 mod basisops;
+mod builder;
 mod freq;
 mod geom;
 mod hist;
@@ -159,6 +160,7 @@ fn main() {
             m.get("out").expect("--out"),
             m.get("seed").and_then(|s| s.parse().ok()).unwrap_or(1),
         ),
+        "builder-scripts" => builder::builder_scripts(m.get("in").expect("--in"), m.get("out").expect("--out")),
         "site-edges" => geom::site_edges(m.get("out").expect("--out")),
         "initial-states" => hist::initial_states(m.get("out").expect("--out")),
         "basis-ops" => basisops::basis_ops(
